@@ -502,6 +502,43 @@ def r02_7(chk, facts, rid='R02.7'):
     if len(t) == 256 and not wrong: chk.ok(rid, 'include/jsoncons/utility/unicode_traits.hpp trailing_bytes_for_utf8', {'C2..DF': 1, 'E0..EF': 2, 'F0..F4': 3})
     else: chk.fail(rid, 'include/jsoncons/utility/unicode_traits.hpp trailing_bytes_for_utf8', tabs[0]['file'], tabs[0]['l'], 'trailing byte counts wrong for lead bytes %s' % [hex(i) for i in wrong[:6]], None, tabs[0]['q'])
 
+def r02_8(chk, facts):
+    """Start-of-input detection (byte order mark / encoding) is applied to the first chunk only."""
+    chk.rule('R02.8', 'start of input handled once: in every source adaptor whose read_chunk examines the first characters under a member flag '
+                      '(`if (bof_ && ...) { detect ...; }`), each path from that test to a normal return clears the flag, or stores an error: '
+                      'otherwise the next chunk - the middle of the document - is examined for a byte order mark again and bytes of the text '
+                      'are dropped or rejected depending on where the chunk boundary fell', floor=2)
+    n = 0; seen = set()
+    for fn in sorted(facts.functions, key=lambda f: bool(f.get('dep'))):
+        # instantiated bodies first, the template pattern where nothing instantiates it
+        if fn.get('body') is None or not fn['file'].endswith(('source_adaptor.hpp', 'text_source_adaptor.hpp')): continue
+        if (fn['file'], fn['l']) in seen: continue
+        det = [c for c in A.calls_in(fn['body'], no_lambda=True) if A.callee_name(c).startswith('detect_')]
+        if not det: continue
+        seen.add((fn['file'], fn['l']))
+        chk.analysed(fn)
+        g = C.CFG(fn['body'])
+        for c in det:
+            dn = g.node_of(c)
+            if dn is None: continue
+            flags = [(a, e) for a, lab, e in g.guards(dn) if lab is True and (A.strip(a, casts=True) or {}).get('k') == 'MemberExpr' and 'bool' in fn['_types'][A.strip(a, casts=True)['t'] - 1]]
+            n += 1
+            site = U.site(fn, 'first-chunk test line %s' % c.get('l'))
+            if not flags:
+                chk.fail('R02.8', site, fn['file'], c.get('l'), '%s examines the start of a chunk with %s() outside a test of a begin-of-input flag: every chunk is examined' % (fn['n'], A.callee_name(c)), None, fn['q'])
+                continue
+            fa, fe = flags[-1]
+            fname = A.strip(fa, casts=True).get('n')
+            clears = [nd for nd in g.rpo if nd.kind == 'stmt' and isinstance(nd.ast, dict) and (U.assigned_member(nd.ast) or (None,))[0] == fname and A.const(U.assigned_member(nd.ast)[1]) == 0]
+            errs = [nd for nd in g.rpo if nd.kind == 'stmt' and isinstance(nd.ast, dict) and (U.assigned_member(nd.ast) or (None,))[0] == 'ec']
+            # from the examination itself (an empty first chunk examines nothing and rightly leaves the flag set)
+            leak = g.can_reach(dn, [g.exit_return], avoid=clears + errs)
+            if not leak: chk.ok('R02.8', site, {'function': fn['q'], 'flag': fname})
+            else:
+                chk.fail('R02.8', site, fn['file'], c.get('l'), '%s: a path from the `%s` test returns normally without `%s = false`: the next chunk is treated as the start of '
+                         'the input again (a byte order mark is looked for in the middle of the text)' % (fn['n'], fname, fname), None, fn['q'])
+    chk.require(n >= 2, 'R02.8: only %d first-chunk tests found in the source adaptors' % n)
+
 def run(chk, tier, only_rule=None):
     chk.explanation = EXPLANATION
     chk.not_decided = NOT_DECIDED
@@ -513,6 +550,7 @@ def run(chk, tier, only_rule=None):
     r02_3(chk, facts)
     r02_5(chk, facts)
     r02_7(chk, facts)
+    r02_8(chk, facts)
     # a number or string token may straddle two chunks: the resume rule of C03 is a necessary condition of accepting the same texts
     from . import c03
     c03.r03_1_2(chk, facts)
